@@ -130,6 +130,10 @@ func (r *Run) classify(e *Exch, by map[int]*OResp) *cls {
 			c.B = b
 		}
 	}
+	if c.B == nil && c.H != nil && c.H.Is304 {
+		// a bodiless stored response freshened by a 304: the response that 304 validated
+		c.B = r.validatedBy(c.H)
+	}
 	if c.H == nil && c.B != nil {
 		c.H = c.B
 	}
@@ -633,6 +637,9 @@ func judgeVary(r *Run, j *Judged, c *cls) {
 		}
 	}
 	own, _ := varyFields(c.B.Header)
+	if c.H != nil && c.H != c.B {
+		own = nil // a 304 may have replaced the Vary field (RFC 9111 §4.3.4): the field in effect was checked above
+	}
 	for _, f := range own {
 		a, b := meaningOf(f, e.Req.Header.Values(f)), meaningOf(f, c.B.Req.Header.Values(f))
 		if a != b {
@@ -951,6 +958,22 @@ func judgeSIE(r *Run, j *Judged, c *cls, by map[int]*OResp) {
 func (r *Run) effectiveStored(B *OResp, before uint64) (hdr http.Header, last *OResp) {
 	hdr, last, _ = r.validationChain(B, before)
 	return
+}
+
+// validatedBy: the (latest) full response whose validators the request answered by 304 h carried.
+func (r *Run) validatedBy(h *OResp) *OResp {
+	inm, ims := h.Req.Header.Get("If-None-Match"), h.Req.Header.Get("If-Modified-Since")
+	var best *OResp
+	for _, o := range r.OResps {
+		if o.Is304 || o.Res != h.Res || o.SeqResp >= h.SeqResp || len(o.Body) != 0 {
+			continue
+		}
+		et, lm := o.Header.Get("Etag"), o.Header.Get("Last-Modified")
+		if (et != "" && et == inm) || (et == "" && lm != "" && lm == ims) {
+			best = o
+		}
+	}
+	return best
 }
 
 // validationChain: the 304s (in order) whose requests carried B's validators as they stood then.
